@@ -17,14 +17,14 @@ var lexSym = map[string][]rune{
 	"bu": {'不'}, "wei": {'为'}, "da": {'大'}, "yu": {'于'}, "deng": {'等'}, "ru": {'如'}, "guo": {'果'}, "he": {'何'},
 	"jie": {'结'}, "shu": {'束'}, "xun": {'循'}, "huan": {'环'}, "de": {'的'}, "zhu": {'注'},
 	"L": {'甲', 'a', 'ア', '가', 'é', 'Ω', '_', 'Z'}, "D": {'1', '0', '7', '9'},
-	"+": {'+'}, "-": {'-'}, "*": {'*'}, "/": {'/'}, "sp": {' ', '\t', 0x3000}, "bt": {'`'}, "col": {'：', ':'},
+	"+": {'+'}, "-": {'-'}, "*": {'*'}, "/": {'/'}, "%": {'%'}, "sp": {' ', '\t', 0x3000}, "bt": {'`'}, "col": {'：', ':'},
 	"dot": {'.'}, "eq": {'='}, "lq": {'“'}, "rq": {'”'},
 }
 
 var tokName = map[uint8]string{
 	zh.TypeIdentifier: "id", zh.TypeString: "str", zh.TypeComment: "comment", zh.TypeFuncCall: "punct",
 	zh.TypeAssignMark: "op=", zh.TypeEqualMark: "op==", zh.TypeNEMark: "op/=", zh.TypePlus: "op+", zh.TypeMinus: "op-",
-	zh.TypeMultiply: "op*", zh.TypeDivision: "op/",
+	zh.TypeMultiply: "op*", zh.TypeDivision: "op/", zh.TypeModuloMark: "op%",
 	zh.TypeLogicNoW: "kwLogicNo", zh.TypeLogicLteW: "kwLogicLte", zh.TypeLogicNotEqW: "kwLogicNotEq", zh.TypeLogicYesW: "kwLogicYes",
 	zh.TypeLogicGtW: "kwLogicGt", zh.TypeLogicEqualW: "kwLogicEqual", zh.TypeCondW: "kwCond", zh.TypeFuncW: "kwFunc",
 	zh.TypeGetterW: "kwGetter", zh.TypeBreakW: "kwBreak", zh.TypeObjDotIIW: "kwObjDotII",
